@@ -98,6 +98,18 @@ add("cat", S("A{U29FA}B"), [one("A", CAT, "B"), one("A", "~", "B")], "full")
 add("at", S("A@B"), [one("A@B"), one("A", " ", "@", " ", "B")], "full")
 add("mixed", S("A{U2295}B{U2192}C"), [one("A", PLUS, "B", ARROW, "C"), one("A", "+", "B", "->", "C")], "full")
 add("qop", S("a -> b"), [one('"a -> b"')], "core")
+add("tens3", S("A{U21CC}B{U21CC}C"), [one("A", TENS, "B", TENS, "C"), one("A", " ", "vs", " ", "B", " ", "vs", " ", "C"), one("A", "<->", "B", "<->", "C"),
+                                      one('"A', TENS, "B", TENS, 'C"')], "core")
+add("syn3", S("A{U2295}B{U2295}C"), [one("A", PLUS, "B", PLUS, "C"), one("A", "+", "B", "+", "C")], "full")
+# ---- strings that look like comments / paths
+add("slashes", S("//cdn.example.com/lib.js"), [one('"//cdn.example.com/lib.js"')], "core")
+add("slash2", S("//"), [one('"//"')], "full")
+add("relpath", S("./a.py"), [one('"./a.py"')], "full")
+add("abspath", S("/etc/hosts"), [one('"/etc/hosts"')], "full")
+add("docpath", S("docs/x.md"), [one("docs/x.md"), one('"docs/x.md"')], "full")
+# ---- whitespace next to a line break inside a string
+add("nlsp", S("keeps its space {U000A}next"), [one('"keeps its space \\nnext"'), [("first", ["@TQ", '"""keeps its space ']), ("raw", ['next"""'])]], "core")
+add("nllead", S("a{U000A}  b"), [one('"a\\n  b"'), [("first", ["@TQ", '"""a']), ("raw", ['  b"""'])]], "full")
 # ---- annotations / constructor brackets
 add("ann", S("ATHENA<wisdom>"), [one("ATHENA<wisdom>")], "core")
 add("ctor1", S("NEVER<A>"), [one("NEVER<A>"), one("NEVER", "[", "A", "]")], "core")
@@ -135,6 +147,7 @@ add("lq", L(S("x y"), I("42"), B("true"), N), [[("first", ["["]), ("rel", ["  ",
 add("ltq", L(S("a{U000A}b"), S("X{U2192}Y"), S("hello there")),
     [[("first", ["["]), ("rel", ["  ", '"a\\nb"', ","]), ("rel", ["  ", "X", ARROW, "Y", ","]), ("rel", ["  ", '"hello there"']), ("rel", ["]"])],
      [("first", ["[", "@TQ", '"""a']), ("raw", ['b"""', ",", " ", "X", "->", "Y", ",", " ", '"hello there"', "]"])]], "full")
+add("lslash", L(S("//x"), S("b")), [one("[", '"//x"', ",", "b", "]"), [("first", ["["]), ("rel", ["  ", '"//x"', ","]), ("rel", ["  ", "b"]), ("rel", ["]"])]], "core")
 add("lexpr", L(S("A{U2192}B"), S("C")), [one("[", "A", ARROW, "B", ",", "C", "]"), one("[", "A", "->", "B", ",", " ", "C", "]")], "core")
 add("lann", L(S("X<a>"), S("b")), [[("first", ["["]), ("rel", ["  ", "X<a>", ","]), ("rel", ["  ", "b"]), ("rel", ["]"])], one("[", "X<a>", ",", "b", "]")], "full")
 add("lpattern", L(P("PATTERN", S("abc")), P("REGEX", S("a.*"))),
